@@ -17,6 +17,17 @@
 //       a history: ONE SnowflakeProxy (and one SignalingServer, one token pool) lives through the whole
 //       line and runs one session per offer, in order; each session is observed exactly as for url /
 //       urlfull.  Result: the per-session results joined by "," (urlseq) or " | " (urlseqfull).
+//   namematcher startcfg <stopper> <relay> <broker> <probe> <stun>
+//       -> x<RelayURL> x<BrokerURL> x<NATProbeURL> x<STUNURL> x<ProxyType> as SnowflakeProxy.Start() leaves them
+//   namematcher sess <stopper> <relay> <broker> <probe> <stun> <pattern> <allow01>
+//                    <effective relay offer> <effective broker> <effective probe> <effective stun> <offer,offer,...>
+//       ONE SnowflakeProxy configured by the operator strings (empty = not given) and put through the real
+//       Start(): its defaulting and the construction of the package's SignalingServer run as in production; Start
+//       is made to return right after that by an unparsable STUN URL (stopper s: the STUN string is "%zz") or by an
+//       invalid pattern that is replaced afterwards (stopper p); "<stopper>-<type>" also sets ProxyType.  Then one session per offer, the data channel
+//       opened and the dial observed as for urlfull.  offer = <raw>;E | <raw>;P;<scheme>;<host>;E |
+//       <raw>;P;<scheme>;<host>;P;<scheme2>;<host2> (second parse: of the string printed from the first with
+//       client_ip set; re-checked here).  Result per offer: refuse | dial:none | dial:<tls01>:x<host>.
 // The parse components in the case line are produced by the same Go url.Parse (driver
 // zz_verif/namematcher, op urlparse); this driver re-checks them ("parse=" / panic on mismatch).
 package snowflake_proxy
@@ -180,8 +191,24 @@ func verifC06URLSeq(args []string, full bool) string {
 
 // one session of the proxy: the broker answers the poll with the relay URL raw
 func (p *verifC06Proxy) session(raw string, parseArgs []string, full bool) string {
-	sf, sb := p.sf, p.sb
 	parse := verifC06CheckParse(raw, parseArgs)
+	dec, dials, problem := p.observe(raw, full)
+	if problem != "" {
+		return problem
+	}
+	if !full {
+		return dec
+	}
+	d := "none"
+	if len(dials) > 0 {
+		d = strings.Join(dials, ";")
+	}
+	return dec + " dial=" + d + " parse=" + strings.ReplaceAll(parse, " ", ",")
+}
+
+// -> refuse|proceed, the dials recorded at the websocket dialer (full only), or a problem
+func (p *verifC06Proxy) observe(raw string, full bool) (string, []string, string) {
+	sf, sb := p.sf, p.sb
 	offer := verifC06SharedOffer
 	var clientPC *webrtc.PeerConnection
 	sb.lock.Lock()
@@ -221,7 +248,7 @@ func (p *verifC06Proxy) session(raw string, parseArgs []string, full bool) strin
 	select {
 	case <-finished:
 	case <-time.After(60 * time.Second):
-		return "runSession-stuck"
+		return "", nil, "runSession-stuck"
 	}
 	sb.lock.Lock()
 	answered := sb.answered
@@ -231,7 +258,7 @@ func (p *verifC06Proxy) session(raw string, parseArgs []string, full bool) strin
 		dec = "proceed"
 	}
 	if !full {
-		return dec
+		return dec, nil, ""
 	}
 	// wait until the session has given its token back (datachannelHandler returned, or the
 	// session was refused / timed out)
@@ -240,16 +267,136 @@ func (p *verifC06Proxy) session(raw string, parseArgs []string, full bool) strin
 		time.Sleep(2 * time.Millisecond)
 	}
 	if tokens.count() != 0 {
-		return dec + " token-never-returned"
+		return "", nil, dec + " token-never-returned"
 	}
 	verifC06DialLock.Lock()
 	dials := append([]string(nil), verifC06Dials...)
 	verifC06DialLock.Unlock()
-	d := "none"
-	if len(dials) > 0 {
-		d = strings.Join(dials, ";")
+	return dec, dials, ""
+}
+
+// ---- a proxy configured through the real Start()
+
+// what url.Parse makes of raw, and of the string printed from that parse with the client_ip query set
+// (datachannelHandler: q.Set("client_ip", ...); u.RawQuery = q.Encode(); Dial(u.String()))
+func verifC06Parse2(raw string) string {
+	u, err := url.Parse(raw)
+	if err != nil {
+		return "E"
 	}
-	return dec + " dial=" + d + " parse=" + strings.ReplaceAll(parse, " ", ",")
+	first := "P;x" + wire.Hex([]byte(u.Scheme)) + ";x" + wire.Hex([]byte(u.Hostname()))
+	q := u.Query()
+	q.Set("client_ip", "192.0.2.9")
+	u.RawQuery = q.Encode()
+	u2, err := url.Parse(u.String())
+	if err != nil {
+		return first + ";E"
+	}
+	return first + ";P;x" + wire.Hex([]byte(u2.Scheme)) + ";x" + wire.Hex([]byte(u2.Hostname()))
+}
+
+const verifC06BadURL = "%zz"
+
+// Start() with the operator's strings; returns the proxy as Start() left it, or a problem
+func verifC06Started(stopper, relay, brokerURL, probe, stun, pattern string, allow bool) (*verifC06Proxy, string) {
+	sf := &SnowflakeProxy{
+		RelayURL:               relay,
+		BrokerURL:              brokerURL,
+		NATProbeURL:            probe,
+		STUNURL:                stun,
+		RelayDomainNamePattern: pattern,
+		AllowNonTLSRelay:       allow,
+		KeepLocalAddresses:     true,
+	}
+	if i := strings.Index(stopper, "-"); i >= 0 {
+		sf.ProxyType = stopper[i+1:]
+		stopper = stopper[:i]
+	}
+	switch stopper {
+	case "s":
+		sf.STUNURL = verifC06BadURL
+	case "p":
+		sf.RelayDomainNamePattern = "" // not a valid rule: Start() stops at its IsValidRule test
+	default:
+		return nil, "!badcase"
+	}
+	broker = nil
+	res := make(chan error, 1)
+	go func() { res <- sf.Start() }()
+	select {
+	case err := <-res:
+		if err == nil {
+			return nil, "start-returned-no-error"
+		}
+	case <-time.After(30 * time.Second):
+		sf.Stop()
+		return nil, "start-did-not-return"
+	}
+	if broker == nil {
+		return nil, "start-made-no-signaling-server"
+	}
+	sf.RelayDomainNamePattern = pattern
+	tokens = newTokens(0)
+	config = webrtc.Configuration{}
+	sb := &verifC06Broker{}
+	broker.transport = sb
+	return &verifC06Proxy{sf: sf, sb: sb}, ""
+}
+
+func verifC06StartCfg(args []string) string {
+	p, problem := verifC06Started(args[1], verifC06Str(args[2]), verifC06Str(args[3]), verifC06Str(args[4]), verifC06Str(args[5]), "$", false)
+	if problem != "" {
+		return problem
+	}
+	defer close(p.sf.shutdown)
+	x := func(s string) string { return "x" + wire.Hex([]byte(s)) }
+	return x(p.sf.RelayURL) + " " + x(p.sf.BrokerURL) + " " + x(p.sf.NATProbeURL) + " " + x(p.sf.STUNURL) + " " + x(p.sf.ProxyType)
+}
+
+func verifC06Sess(args []string) string {
+	p, problem := verifC06Started(args[1], verifC06Str(args[2]), verifC06Str(args[3]), verifC06Str(args[4]), verifC06Str(args[5]),
+		verifC06Str(args[6]), args[7] == "1")
+	if problem != "" {
+		return problem
+	}
+	defer close(p.sf.shutdown)
+	// the configuration the model was given must be the one Start() produced
+	eff := strings.SplitN(args[8], ";", 2)
+	if len(eff) != 2 || p.sf.RelayURL != verifC06Str(eff[0]) || verifC06Parse2(p.sf.RelayURL) != eff[1] ||
+		p.sf.BrokerURL != verifC06Str(args[9]) || p.sf.NATProbeURL != verifC06Str(args[10]) || p.sf.STUNURL != verifC06Str(args[11]) {
+		return "!stale-config"
+	}
+	var out []string
+	for _, offer := range wire.List(args[12]) {
+		parts := strings.SplitN(offer, ";", 2)
+		if len(parts) != 2 {
+			return "!badcase"
+		}
+		raw := verifC06Str(parts[0])
+		if got := verifC06Parse2(raw); got != parts[1] {
+			panic("url.Parse components in the case line are stale: " + got)
+		}
+		dec, dials, problem := p.observe(raw, true)
+		switch {
+		case problem != "":
+			out = append(out, strings.ReplaceAll(problem, " ", "_"))
+		case len(dials) > 1:
+			out = append(out, dec+"+several-dials")
+		case len(dials) == 1:
+			d := strings.SplitN(dials[0], ",", 2)
+			tls := map[string]string{"https": "1", "http": "0"}[d[0]]
+			if tls == "" || dec != "proceed" {
+				out = append(out, dec+"+dial:"+d[0]+":"+d[1])
+			} else {
+				out = append(out, "dial:"+tls+":"+d[1])
+			}
+		case dec == "proceed":
+			out = append(out, "dial:none")
+		default:
+			out = append(out, "refuse")
+		}
+	}
+	return wire.PrintList(out)
 }
 
 func TestVerifDriverC06(t *testing.T) {
@@ -275,6 +422,12 @@ func TestVerifDriverC06(t *testing.T) {
 		os.Stdout = os.Stderr
 		if len(args) >= 5 && (args[0] == "url" || args[0] == "urlfull") {
 			return verifC06URL(args, args[0] == "urlfull")
+		}
+		if len(args) == 6 && args[0] == "startcfg" {
+			return verifC06StartCfg(args)
+		}
+		if len(args) == 13 && args[0] == "sess" {
+			return verifC06Sess(args)
 		}
 		if len(args) == 4 && (args[0] == "urlseq" || args[0] == "urlseqfull") {
 			return verifC06URLSeq(args, args[0] == "urlseqfull")
